@@ -46,6 +46,9 @@ type RaftSim struct {
 	hist *raftHist
 	// Stats observed by the monitors.
 	*RaftStats
+	// LinkDelay, if set, holds back the messages of link src -> dest while it returns true (FIFO mode only):
+	// a partition realised as delay, which reliable links allow for any finite time.
+	LinkDelay func(dest, src int) bool
 }
 
 // History returns the recorded client operations (completed ones and open ones).
@@ -235,8 +238,14 @@ func Raftkvs(seed int64, o RaftOpts) *RaftSim {
 			for _, x := range fifo.cur[dest] {
 				if sr := Fld(x, "msource").AsNumber(); !seen[sr] {
 					seen[sr] = true
+					if rs.LinkDelay != nil && rs.LinkDelay(int(dest), int(sr)) {
+						continue
+					}
 					srcs = append(srcs, sr)
 				}
+			}
+			if len(srcs) == 0 {
+				return c, c, ErrAbort
 			}
 			pick := srcs[iface.NextFairnessCounter("net.src", uint(len(srcs)))]
 			for i, x := range fifo.cur[dest] {
